@@ -45,7 +45,7 @@ def required_cells(tier):
             "action:store_split", "action:extend_match", "extend_match:override", "extend_match:no-override", "rule:two-flags",
             "pass-with-modes", "user-extends-builtin", "user-redefines-as-alias", "implicit==explicit", "alias==target",
             "repeat-parse", "implicit-option:attached-value", "builtin:gcc", "builtin:clang", "builtin:icx", "builtin:nvcc", "e2e:_OPENMP", "e2e:__CUDA_ARCH__",
-            "e2e:__SYCL_DEVICE_ONLY__", "e2e:passes-differ-in-include-files", "unknown-compiler", "e2e:passes-differ-in-include-paths"]
+            "e2e:__SYCL_DEVICE_ONLY__", "e2e:passes-differ-in-include-files", "unknown-compiler", "e2e:passes-differ-in-include-paths", "format:$value", "format:${value}", "argv0:symlink-to-known-compiler"]
 
 
 # ------------------------------------------------------------------ TOML --
@@ -129,7 +129,8 @@ def gen_config(rng):
             rules.append({"flags": [flag()], "action": "append_const", "dest": "passes", "const": rng.choice(passes)["name"]})
         if passes and rng.random() < 0.6:
             r = {"flags": [flag()] + ([flag()] if rng.random() < 0.35 else []), "action": "store_split", "sep": ",",
-                 "format": prefix + "p$value", "dest": "passes"}
+                 "format": prefix + ("p$value" if fcount[0] % 2 else "p${value}"), "dest": "passes"}     # both placeholder spellings
+            cells.add("format:" + ("$value" if "$v" in r["format"] else "${value}"))
             if rng.random() < 0.6:
                 r["default"] = [passes[0]["name"]]
             if len(r["flags"]) == 2:
@@ -138,7 +139,8 @@ def gen_config(rng):
             cells.add("action:store_split")
         if passes and rng.random() < 0.6:
             r = {"flags": [flag()] + ([flag()] if rng.random() < 0.35 else []), "action": "extend_match", "pattern": r"(?:a|b)_(\d+)",
-                 "format": prefix + "p$value", "dest": "passes"}
+                 "format": prefix + ("p$value" if fcount[0] % 2 else "p${value}"), "dest": "passes"}
+            cells.add("format:" + ("$value" if "$v" in r["format"] else "${value}"))
             if rng.random() < 0.7:
                 r["default"] = [passes[-1]["name"]]
             if rng.random() < 0.5:
@@ -680,6 +682,17 @@ def run_shard(ctx):
             for _ in range(b["cmds_per_config"]):
                 nm = r2.choice(names)
                 cmds.append((r2.choice(["", "/usr/bin/", "../bin/"]) + nm, gen_argv(r2, compilers, nm)))
+            if i % 5 == 0:
+                # argv[0] that exists on disk as a symbolic link to a file named like a known compiler: still recognised
+                # by its own base name only
+                bindir = os.path.join(work, "bin")
+                os.makedirs(bindir, exist_ok=True)
+                for real_, link_ in (("gcc", "mycc"), ("nvcc", "unknowncc"), ("cc0", "wrapped-cc")):
+                    open(os.path.join(bindir, real_), "w").close()
+                    if not os.path.lexists(os.path.join(bindir, link_)):
+                        os.symlink(real_, os.path.join(bindir, link_))
+                    cmds.append((os.path.join(bindir, link_), gen_argv(r2, compilers, link_) + ["-fopenmp"]))
+                cells.add("argv0:symlink-to-known-compiler")
             for nm in user:
                 # every dotted name and both ends / the middle of a long alias chain are exercised
                 if "." in nm or (nm.startswith("ln") and nm in ("ln0", "ln1", "ln2", "ln9")):
